@@ -179,6 +179,11 @@ func (s *State) execTop(f []string, line string) (bool, error) {
 }
 
 func (s *State) hasNameif(n string) bool {
+	// A configuration without interface definitions is a Netspoc file
+	// used as device (file/file compare): interfaces are implicit.
+	if len(s.Intfs) == 0 {
+		return true
+	}
 	for _, i := range s.Intfs {
 		if i.Nameif == n {
 			return true
